@@ -102,6 +102,7 @@ def gen_text():
     fmts = [(i, ctx.ctypes_names[i]) for i in INT_IDS]
     unsv = [(i, rs.get_type(["unsigned"] + i.split()).type_id) for i in INT_IDS if i in BasicType.SIGNED_INTEGER_TYPES]
     names = [(n, rs.get_type(n.split()).type_id) for n in SPEC_NAMES]
+    size_t = CSemantics(ctx).size_t_type.type_id
     out = [
         "/- GENERATED by harness/c27.py regen() from the live ppci objects of the checked tree - do not edit -/",
         "namespace Gen.CEval", "",
@@ -126,6 +127,8 @@ def gen_text():
         f"def unsignedVariants : List (String × String) := {pairs(unsv, True)}", "",
         "/-- `RootScope().get_type(name.split()).type_id` for the C spellings of the integer types -/",
         f"def typeNames : List (String × String) := {pairs(names, True)}", "",
+        "/-- `CSemantics(CContext(x86_64)).size_t_type.type_id` -/",
+        f"def sizeType : String := {_s(size_t)}", "",
         "end Gen.CEval", "",
     ]
     return "\n".join(out)
@@ -247,11 +250,14 @@ def _mathematical(e):
             return abs(a) // abs(b) * (1 if (a < 0) == (b < 0) else -1)
         if op == "mod":
             return a - b * (abs(a) // abs(b) * (1 if (a < 0) == (b < 0) else -1))
-        if op in ("shl", "shr") and not 0 <= b < 200:
-            return None
-        return {"add": a + b, "sub": a - b, "mul": a * b, "shl": a << b, "shr": a >> b, "band": a & b, "bor": a | b,
-                "bxor": a ^ b, "lt": int(a < b), "gt": int(a > b), "le": int(a <= b), "ge": int(a >= b),
-                "eq": int(a == b), "ne": int(a != b), "land": int(bool(a and b)), "lor": int(bool(a or b))}[op]
+        if op in ("shl", "shr"):
+            if not 0 <= b < 200:
+                return None
+            return a << b if op == "shl" else a >> b
+        return {"add": lambda: a + b, "sub": lambda: a - b, "mul": lambda: a * b, "band": lambda: a & b,
+                "bor": lambda: a | b, "bxor": lambda: a ^ b, "lt": lambda: int(a < b), "gt": lambda: int(a > b),
+                "le": lambda: int(a <= b), "ge": lambda: int(a >= b), "eq": lambda: int(a == b),
+                "ne": lambda: int(a != b), "land": lambda: int(bool(a and b)), "lor": lambda: int(bool(a or b))}[op]()
     except Exception:  # noqa
         return None
 
@@ -304,7 +310,11 @@ def canon_impl(kind, r):
 
 
 def canon_model(kind, reply):
-    return "err struct.error" if reply == "err struct.error" else reply
+    if kind == "enum" and reply.startswith("ok ") and reply != "ok none":
+        # the enumerator is observed through `long long v = E;`: compare modulo 2^64
+        v = int(reply.split()[1]) & ((1 << 64) - 1)
+        return f"ok {v - (1 << 64) if v >> 63 else v}"
+    return reply
 
 
 def minimal_failing(ctx, kind, ty, e):
